@@ -21,8 +21,21 @@ func init() {
 				n = 6000
 			}
 			var out []Case
+			// corpus: the PanicError of an earlier Recover as a panic value (alone and under a Formatter definition),
+			// a re-panicked result, factories with a negative StackDepth (root, derived, context-derived)
+			nt := []POpt{{T: "notrace"}}
+			out = append(out, runC17([]PStmt{
+				{T: "define", Kind: "k1", Opts: nt}, {T: "define", Kind: "k2", Opts: []POpt{{T: "fmt", ID: 1}, {T: "notrace"}}},
+				{T: "recover", F: 0, Cb: &PCb{T: "panicVal", Val: 0}}, {T: "recover", F: 1, Cb: &PCb{T: "panicInner", E: ip(0)}},
+				{T: "recover", F: 0, Cb: &PCb{T: "panicInner", E: ip(1)}}, {T: "recover", F: 1, Cb: &PCb{T: "panicErr", E: ip(1)}},
+				{T: "recover", F: 0, Cb: &PCb{T: "call", C: &PCb{T: "recover", F: 1, C: &PCb{T: "panicInner", E: ip(0)}}}}}))
+			out = append(out, runC17([]PStmt{
+				{T: "define", Kind: "k1", Opts: []POpt{{T: "depth", N: -1}}}, {T: "withopts", D: 0, Opts: []POpt{{T: "depth", N: -3}}},
+				{T: "ctx", Opts: []POpt{{T: "depth", N: -1}}}, {T: "define", Kind: "k2"}, {T: "with", D: 2, Ctx: ip(0)},
+				{T: "recover", F: 0, Cb: &PCb{T: "panicVal", Val: 0}}, {T: "recover", F: 1, Cb: &PCb{T: "panicRt", Rt: "nilmap"}},
+				{T: "recover", F: 3, Cb: &PCb{T: "panicErr", E: ip(0)}}, {T: "recover", F: 2, Cb: &PCb{T: "ret"}}}))
 			for i := 0; i < n; i++ {
-				cfg := p1Cfg{MaxStmts: 5 + i*8/n, Keys: p1Keys, Recover: true, Presenters: i%2 == 0}
+				cfg := p1Cfg{MaxStmts: 5 + i*8/n, Keys: p1Keys, Recover: true, Presenters: i%2 == 0, Trace: i%4 == 1}
 				p := genProg(r, cfg)
 				// make Recover frequent: append a few
 				nd, ne := 0, 0
